@@ -149,6 +149,14 @@ impl Canonical {
     }
 }
 
+#[cfg(heartwood_verif)]
+impl Canonical {
+    /// Verification hook: build a `Canonical` directly from a tip map.
+    pub fn verif_from_tips(tips: BTreeMap<Did, Oid>, threshold: usize) -> Self {
+        Canonical { tips, threshold }
+    }
+}
+
 /// Check that a given `target` converges with any of the provided `tips`.
 ///
 /// It converges if the `target` is either equal to, ahead of, or behind any of
